@@ -36,6 +36,17 @@ type expCase struct {
 
 var errScripted = errors.New("scripted evaluator failure")
 
+// errScriptedCtx is an evaluator failure that also matches context.Canceled (as an error from the evaluator's own
+// child context would), while the run context is still alive.
+type scriptedCtxError struct{}
+
+func (scriptedCtxError) Error() string { return "scripted evaluator failure: context canceled" }
+func (scriptedCtxError) Is(target error) bool {
+	return target == errScripted || target == context.Canceled
+}
+
+var errScriptedCtx error = scriptedCtxError{}
+
 type popTrack struct {
 	index     int
 	turnovers int
@@ -106,6 +117,8 @@ func (s *scriptedEvaluator) GenerationEvaluate(_ context.Context, pop *genetics.
 	switch outcome {
 	case "fail":
 		return errScripted
+	case "failctx":
+		return errScriptedCtx
 	case "cancel":
 		s.cancel()
 	case "csolved":
